@@ -101,20 +101,58 @@ def densityDecisions (M : Mgr σ (Option ι)) (s : σ) : List (Bool × Option ι
 def densityQuery (M : Mgr σ (Option ι)) (s : σ) (c : List (Bool × Option ι)) : List Nat × σ :=
   (idxOf (densityDecisions M s c) 0, s)
 
-/-- `new_candidates` of `update`: with `keepAll` (`StreamDensityBasedAL`, or
-`force_full_budget=True`) a failing instance is replaced by NaN, otherwise
-(`CognitiveDualQueryStrategy(force_full_budget=False)`) it is dropped — while `queried_indices`
-still refer to the positions in the unfiltered chunk. -/
-def newCandidates (keepAll : Bool) (c : List (Bool × Option ι)) : List (Option ι) :=
-  if keepAll then c.map (fun x => if x.1 then x.2 else none)
-  else (c.filter (fun x => x.1)).map (fun x => x.2)
+/-- is the instance passed on to the budget manager?  `keepAll` = `StreamDensityBasedAL` or
+`force_full_budget=True` (a failing instance is passed on as NaN), otherwise
+`CognitiveDualQueryStrategy(force_full_budget=False)` (a failing instance is dropped). -/
+def passedOn (keepAll : Bool) (x : Bool × Option ι) : Bool := keepAll || x.1
 
+/-- what is appended to `new_candidates` for an instance that is passed on -/
+def entryOf (x : Bool × Option ι) : Option ι := if x.1 then x.2 else none
+
+/-- `new_candidates` of `update` -/
+def newCandidates (keepAll : Bool) (c : List (Bool × Option ι)) : List (Option ι) :=
+  (c.filter (passedOn keepAll)).map entryOf
+
+/-- `new_positions` of `CognitiveDualQueryStrategy.update` (commit a01696e6): for every instance of
+the chunk, its position in `new_candidates` if it is passed on (`k` = `len(new_candidates)` so far). -/
+def newPositions (keepAll : Bool) : List (Bool × Option ι) → Nat → List (Option Nat)
+  | [], _ => []
+  | x :: xs, k =>
+    if passedOn keepAll x then some k :: newPositions keepAll xs (k + 1)
+    else none :: newPositions keepAll xs k
+
+/-- `[new_positions[i] for i in queried_indices]`; `KeyError` is turned into `IndexError` -/
+def remap (pos : List (Option Nat)) : List Nat → Except BErr (List Nat)
+  | [] => .ok []
+  | i :: is =>
+    match pos.getD i none with
+    | none => .error .indexError
+    | some j =>
+      match remap pos is with
+      | .ok js => .ok (j :: js)
+      | .error e => .error e
+
+/-- `StreamDensityBasedAL.update` (and `CognitiveDualQueryStrategy.update` before commit a01696e6, see
+`Ska.C10.Regressions`): the indices are handed to the manager as they are. -/
 def densityUpdate (keepAll : Bool) (M : Mgr σ (Option ι)) (s : σ) (c : List (Bool × Option ι))
     (idx : List Nat) : Except BErr σ :=
   M.update s (newCandidates keepAll c) idx
 
+/-- `CognitiveDualQueryStrategy.update` (current code): the indices are translated to positions in
+`new_candidates` first. -/
+def cognitiveUpdate (ffb : Bool) (M : Mgr σ (Option ι)) (s : σ) (c : List (Bool × Option ι))
+    (idx : List Nat) : Except BErr σ :=
+  match remap (newPositions ffb c 0) idx with
+  | .error e => .error e
+  | .ok idx' => M.update s (newCandidates ffb c) idx'
+
+/-- `StreamDensityBasedAL` (`keepAll = true`); with `keepAll = false` the old cognitive strategy -/
 def densityStrategy (keepAll : Bool) (M : Mgr σ (Option ι)) : Mgr σ (Bool × Option ι) :=
   { query := densityQuery M, update := densityUpdate keepAll M }
+
+/-- `CognitiveDualQueryStrategy(force_full_budget=ffb)` -/
+def cognitiveStrategy (ffb : Bool) (M : Mgr σ (Option ι)) : Mgr σ (Bool × Option ι) :=
+  { query := densityQuery M, update := cognitiveUpdate ffb M }
 
 end Glue
 
